@@ -80,6 +80,8 @@ impl Proposer {
             }
         }
         debug!("Created {:?}", block);
+        #[cfg(hotstuff_verif)]
+        crate::verif::emit(format!("\"ev\":\"Proposed\",\"b\":{}", crate::verif::block(&block)));
 
         // Broadcast our new block.
         debug!("Broadcasting {:?}", block);
@@ -126,6 +128,8 @@ impl Proposer {
             tokio::select! {
                 Some(digest) = self.rx_mempool.recv() => {
                     //if self.buffer.len() < 155 {
+                    #[cfg(hotstuff_verif)]
+                    crate::verif::emit(format!("\"ev\":\"BufferAdd\",\"digest\":\"{}\"", crate::verif::hex(&digest.0)));
                         self.buffer.insert(digest);
                     //}
                 },
